@@ -310,20 +310,28 @@ def _overwrite_single_node(
     # Rename the old group
     parentgroup.move(name,"_tmp_"+name)
 
-    # Write the new data 
-    new_group = _write_single_node(
-        parentgroup,
-        data
-    )
+    try:
+        # Write the new data 
+        new_group = _write_single_node(
+            parentgroup,
+            data
+        )
 
-    # Copy the links
-    keys = [k for k in group.keys() if "emd_group_type" in group[k].attrs.keys()]
-    keys = [k for k in keys if group[k].attrs["emd_group_type"] in EMD_data_group_types]
-    for key in keys:
-        new_group[key] = group[key]
+        # Copy the links
+        keys = [k for k in group.keys() if "emd_group_type" in group[k].attrs.keys()]
+        keys = [k for k in keys if group[k].attrs["emd_group_type"] in EMD_data_group_types]
+        for key in keys:
+            new_group[key] = group[key]
 
-    # Remove the old group
-    del(parentgroup["_tmp_"+name],group)
+        # Remove the old group
+        del(parentgroup["_tmp_"+name])
+
+    except Exception:
+        # Something failed - put the old group back
+        if name in parentgroup:
+            del(parentgroup[name])
+        parentgroup.move("_tmp_"+name,name)
+        raise
 
     # Return
     return new_group
